@@ -250,12 +250,9 @@ class BasicContiguousVector<cntgs::Options<Option...>, Parameter...>
 
     [[nodiscard]] constexpr bool empty() const noexcept { return locator_->empty(memory_begin()); }
 
-    [[nodiscard]] constexpr std::byte* data() noexcept { return locator_->element_address({}, memory_begin()); }
+    [[nodiscard]] constexpr std::byte* data() noexcept { return memory_begin(); }
 
-    [[nodiscard]] constexpr const std::byte* data() const noexcept
-    {
-        return locator_->element_address({}, memory_begin());
-    }
+    [[nodiscard]] constexpr const std::byte* data() const noexcept { return memory_begin(); }
 
     [[nodiscard]] constexpr std::byte* data_begin() noexcept { return data(); }
 
